@@ -271,6 +271,34 @@ def boxExtendBy {β : Type} (join : β → β → β) (empty : β) (pool : Optio
 def foldPoints {β : Type} (join : β → β → β) (pt : Nat → β) (len : Nat) (box : β) : β :=
   (List.range len).foldl (fun b p => join b (pt p)) box
 
+/-! ### The same reduction with the TWO member functions the C++ uses (PyImathBox.cpp:224-256)
+
+`ExtendByTask::execute (start,end,tid)` calls `boxes[tid].extendBy (points[p])` — the POINT overload
+`Box<V>::extendBy (const V&)`; `box_extendBy` default-constructs `std::vector<Box<T>> boxes (numBoxes)`
+(`Box()` = `makeEmpty()`), dispatches, and merges with `box.extendBy (boxes[i])` — the BOX overload
+`Box<V>::extendBy (const Box<V>&)`.  `extP` / `extB` / `empty` are instantiated with the definitions
+GENERATED from ImathBox.h (`Gen.Box3.extendByPoint`, `Gen.Box3.extendByBox`, `Gen.Box3.default`). -/
+
+/-- `boxes[tid].extendBy (points[p])`: partial results indexed by thread id. -/
+def reduceStep2 {β π : Type} (extP : β → π → β) (pts : Nat → π) (tid : Nat) (p : Nat) (P : Nat → β) : Nat → β :=
+  fun t => if t = tid then extP (P t) (pts p) else P t
+
+/-- `ExtendByTask::execute (start, end, tid)` -/
+def reduceTask2 {β π : Type} (extP : β → π → β) (pts : Nat → π) : Task (Nat → β) :=
+  fun s e tid => exec (reduceStep2 extP pts tid) s e
+
+/-- `box_extendBy (box, points)`: `numBoxes = workers ()`, `boxes (numBoxes)` default-constructed,
+    `dispatchTask (task, points.len ())`, then `box.extendBy (boxes[i])` for `i = 0 .. numBoxes-1`. -/
+def boxExtendBy2 {β π : Type} (extP : β → π → β) (extB : β → β → β) (empty : β) (pool : Option Pool)
+    (pts : Nat → π) (len : Nat) (box : β) : β :=
+  let n := workers pool
+  let P := dispatchTask pool (reduceTask2 extP pts) len (fun _ => empty)
+  (List.range n).foldl (fun b i => extB b (P i)) box
+
+/-- the unsplit reference: `box.extendBy (points[p])` for `p = 0 .. len-1` -/
+def foldPoints2 {β π : Type} (extP : β → π → β) (pts : Nat → π) (len : Nat) (box : β) : β :=
+  (List.range len).foldl (fun b p => extP b (pts p)) box
+
 /-- A 1-D closed interval box, `none` = empty (`Box()`); `hull` is `extendBy`:
     component-wise min / max. -/
 abbrev IBox := Option (Int × Int)
